@@ -139,6 +139,13 @@ def _resolve(hkey):
     return getattr(importlib.import_module(modname), attr)
 
 
+def _blame(e):
+    """Does the traceback of an unexpected exception pass through the code under test (/repo)?"""
+    tb = traceback.extract_tb(e.__traceback__)
+    root = os.path.join(REPO, "")
+    return any(fr.filename.startswith(root) for fr in tb)
+
+
 def run_concrete(harness, params, assignment):
     """Run a harness with plain values.  Returns dict(status, obs, labels, msg, signature)."""
     ctx = Ctx("conc", assignment=dict(assignment))
@@ -159,6 +166,12 @@ def run_concrete(harness, params, assignment):
     except Exception as e:  # an exception the harness did not expect
         tb = traceback.extract_tb(e.__traceback__)
         where = "%s:%s" % (os.path.basename(tb[-1].filename), tb[-1].name) if tb else "?"
+        if not _blame(e):
+            # raised and propagated entirely inside the harness / references: a harness error, never a verdict
+            out.update(status="fault", msg="harness error %s: %s at %s" % (type(e).__name__, e, where))
+            out["obs"] = plain(ctx.obs)
+            out["labels"] = list(ctx.labels)
+            return out
         out.update(
             status="violation",
             msg="unexpected %s: %s at %s" % (type(e).__name__, e, where),
@@ -222,9 +235,15 @@ def _subtree(args):
                 core.ENG = None
                 eng.end()
                 break
-            status = "violation"
             tb = traceback.extract_tb(e.__traceback__)
             where = "%s:%s" % (os.path.basename(tb[-1].filename), tb[-1].name) if tb else "?"
+            if not _blame(e):
+                res["fault"] = "harness error %s: %s at %s on path %r\n%s" % (type(e).__name__, e, where, _short(p),
+                                                                              "".join(traceback.format_exception(type(e), e, e.__traceback__)[-4:]))
+                core.ENG = None
+                eng.end()
+                break
+            status = "violation"
             vio = {
                 "msg": "unexpected %s: %s at %s" % (type(e).__name__, e, where),
                 "signature": "exception:%s@%s" % (type(e).__name__, where),
